@@ -199,6 +199,7 @@ def random_traces(run, n, length, seed):
         present = {}
         gone = {}          # removed files as they were: (content, valid, mtime)
         unopen = set()     # files currently represented by an entry that cannot be opened
+        ever_unopen = set()
         mt = {}
         clock = 100
         try:
@@ -223,12 +224,16 @@ def random_traces(run, n, length, seed):
                         content = present[f]
                     clock += 1
                     when = clock
-                    if f in present and f not in unopen and r.random() < 0.2 and mt[f][1] > 1:
+                    # (never for a file that was once represented by an unopenable entry: the monitor could not read that
+                    # entry's time, the trace records one - an older time could coincide with it and make the two disagree
+                    # about "changed" for a reason that has nothing to do with the property)
+                    if f in present and f not in ever_unopen and r.random() < 0.2 and mt[f][1] > 1:
                         when = max(1, mt[f][1] - r.randrange(1, 4))      # a backup restored over the file: an OLDER time
                     how = "text"
                     if not valid and when == clock and r.random() < 0.3:
                         how = "symlink"                                    # an entry that cannot be opened at all
                         unopen.add(f)
+                        ever_unopen.add(f)
                     elif when == clock:
                         unopen.discard(f)
                     rm.write(f, content, valid, when, how=how)
